@@ -47,7 +47,7 @@ fn elem_ref(op: &str, a: &TV, b: &TV) -> String {
     if matches!(a, TV::List(_)) || matches!(b, TV::List(_)) {
         match op {
             "==" | "!=" | "<" | "<=" | ">" | ">=" => real_op(&format!(".{}", op), a, b),
-            "??" => eval_with(&[("a", a)], "a").0,
+            "??" => eval_with(&[("a", if matches!(a, TV::Null) { b } else { a })], "a").0,
             _ => "(err)".to_string(),
         }
     } else {
